@@ -160,7 +160,7 @@ def strategies_for(rng, items, src, quick=True):
 
 def gen_random(ctx):
   rng = ctx.rng
-  for _ in range(600 if ctx.quick else 8000):
+  for _ in range(450 if ctx.quick else 8000):
     kind = rng.choice(['dict', 'dict', 'scalar'])
     items = gen_items(rng, kind)
     src = rng.choice(['seq', 'seq', 'rr', 'plain'])
